@@ -80,14 +80,16 @@ CLAIMED = {
         "JSON document, the model of interpreter.rs returns exactly the value an independently written denotational semantics of the "
         "specification assigns (C01_search = parser soundness T1 + C01_conformance, by mutual induction over the concrete syntax; 7 lemma "
         "files). A size side condition bounds the widest array evaluation can build by i32::MAX (the slice code's own assumption); a "
-        "machine-checked counterexample shows some such condition is necessary. Beyond the property's core forms, C01_search_full (Props/C01Full, "
+        "machine-checked counterexample shows some such condition is necessary. The model `interp` these theorems are about is proved EQUAL to the evaluator re-translated from interpreter.rs on every run "
+        "(tools/rs2lean.py -> Generated/InterpCode.lean: all 18 arms, loops, `?`, ctx.offset; Lemmas/InterpEquiv, C01_translated_interpreter). "
+        "Beyond the property's core forms, C01_search_full (Props/C01Full, "
         "8 lemma files) proves the same for the FULL language: calls of the 26 builtins with expression references denoting functions, against "
         "Spec/SemFull.lean. The truth table and type tags are re-translated from variable.rs on every run (C01_translated_truthy_type). Tied to the code by the `eval` stream: implementation vs "
         "model vs the semantics evaluated by the driver, on the compliance suite's expression x document cross product and generated pairs.",
    note="Trusted: Lean kernel; Spec/Sem.lean as the reading of the specification (comparators delegated to C10's operator, slices to C07's rule); "
         "interpreter/parser/value models correspond to the code as sampled; arrays wider than 2^31-1 are outside the theorem (and outside any test).",
    design="DESIGN.md §7 C01",
-   technique="Lean 4 theorem (interpreter model = denotational semantics on all core expressions, and on the full language with builtins) + correspondence check with the semantics as oracle"),
+   technique="Lean 4 theorem (evaluator regenerated from interpreter.rs on every run = hand model = denotational semantics on all core expressions, and on the full language with builtins) + correspondence check with the semantics as oracle"),
  "C12": dict(
    text="Machine-checked theorems (Lean 4): line/column computed by JmespathError::new are exactly the zero-based line and character column "
         "of the byte offset for any text (loop invariant), Display inserts the caret line under that column (render shape), every token / "
@@ -158,7 +160,7 @@ CLAIMED = {
         "documents) and compares the compound with the model.",
    note="Trusted: Lean kernel; interpreter/parser models as sampled by the `eval` stream. No law is stated for function-call nodes themselves (their arguments are covered as sub-trees).",
    design="DESIGN.md §7 C11",
-   technique="Lean 4 theorems (big-step compositional characterisations, offset irrelevance) + implementation-only recombination oracle"),
+   technique="Lean 4 theorems (big-step compositional characterisations of an evaluator model proved equal to the evaluator regenerated from interpreter.rs on every run) + implementation-only recombination oracle"),
  "C08": dict(
    text="Machine-checked theorems (Lean 4). Repository code: the identity query returns the document; conversion to and from serde_json::Value is "
         "lossless on library values. JSON text layer (serde_json's, modelled): parsing the compact or pretty printed text of a value yields "
